@@ -35,6 +35,18 @@ def _dst(g, W, role, nr, nc):
     return l, d, role
 
 
+# word-width classes of the unrolled kernels (`width % 8` cases of _mzd_combine / process_rows / TRSM): column
+# counts of 1..9, 15, 16, 17 words, mostly with a partial last word; independent of sz (C09 passes sz = 100),
+# bounded by 1100 columns; used as a low-probability class so that the quick tiers stay fast
+_WIDE_WORDS = [1, 2, 3, 4, 5, 6, 7, 8, 9, 15, 16, 17]
+P_WIDE = 0.06
+
+
+def _wide_cols(g):
+    w = g.rng.choice(_WIDE_WORDS)
+    return 64 * w - g.rng.randint(1, 63) if g.rng.random() < 0.8 else 64 * w
+
+
 # ------------------------------------------------------------------------------------------------
 # C08
 # ------------------------------------------------------------------------------------------------
@@ -361,6 +373,17 @@ def _mul_shapes(g, sz, route):
         n = r.choice([1, 30, 53, 54, 55])      # naive: transposed / row-combination switch
     elif c < 0.3:
         m = r.choice([1, 15, 16, 17])          # m4rm falls back below 16 rows
+    elif c < 0.38:
+        # row-block loop of _mzd_mul_naive: A->nrows an exact multiple of __M4RI_MUL_BLOCKSIZE (2048 on the host,
+        # 256 in the small-cache build) or one off, with a thin B (< 54 columns: the row-combination route)
+        m = r.choice([256, 512, 255, 257] + ([2048, 2047] if sz >= 400 else []))
+        n = r.choice([1, 5, 30, 53])
+        l = min(l, 130)
+    elif c < 0.38 + P_WIDE:
+        # word-width classes of the combine kernels: C / B of 1..9, 15, 16, 17 words, more than 64 rows
+        n = _wide_cols(g)
+        m = r.randint(65, 100)
+        l = r.choice([r.randint(1, 70), 17, 64, 65])
     return m, l, n
 
 
@@ -428,9 +451,52 @@ def b_djb(g, W, sz):
 # ------------------------------------------------------------------------------------------------
 # C02
 # ------------------------------------------------------------------------------------------------
-def _ech(name, mk):
+def _ech_split_case(g):
+    """the 1..6-table split of _mzd_echelonize_m4ri depends on kbar = number of pivots found in the current block of
+    up to 6k columns: explicit k in 2..8, ncols = 6k*q + rem for q in 0..2 and EVERY rem in 1..6k-1 (in particular
+    rem in (5k, 6k)), nrows = ncols + 14; dense (full column rank), 10 % density, or a pivot gap after exactly such a
+    number of pivots"""
+    r = g.rng
+    k = r.randint(2, 8)
+    q = r.choice([0, 1, 2])
+    rem = r.choice([r.randint(1, 6 * k - 1), r.randint(5 * k + 1, 6 * k - 1), r.randint(1, 6 * k - 1)])
+    nc = 6 * k * q + rem
+    nr = nc + 14
+    style = r.choice(["dense", "dense", "density10", "gap"])
+    if style == "density10":
+        rows = []
+        for _ in range(nr):
+            v = 0
+            for j in range(nc):
+                if r.random() < 0.1:
+                    v |= 1 << j
+            rows.append(v)
+    else:
+        rows = [r.getrandbits(nc) for _ in range(nr)]
+    if style == "gap":
+        # pivots in the columns 0..p-1, then a zero column block, then pivots again
+        p = min(nc - 1, 6 * k * r.choice([0, 1]) + r.randint(1, 6 * k - 1)) if nc > 1 else 0
+        gw = r.choice([1, 2, k, 6 * k, 64 - p % 64 if p % 64 else 1])
+        mask = ~(((1 << gw) - 1) << p)
+        rows = [v & mask & ((1 << nc) - 1) for v in rows]
+        style = "gap%d+%d" % (p, gw)
+    return k, nr, nc, rows, "split/k%d/q%d/rem%d/%s" % (k, q, rem, style)
+
+
+def _ech(name, mk, kcall=None):
     def b(g, W, sz):
-        nr, nc = g.dim(sz), g.dim(sz * 2)
+        c = g.rng.random()
+        if kcall is not None and c < 0.3:
+            k, nr, nc, ra, ka = _ech_split_case(g)
+            la, da = g.operand("A", nr, nc, ra, W("A"))
+            call, meta = kcall(g, k)
+            m = dict(shape=(nr, nc), kinds=(ka,))
+            m.update(meta)
+            return _finish(la + [call], da), m
+        if c > 1.0 - P_WIDE:
+            nr, nc = g.rng.randint(65, 100), _wide_cols(g)
+        else:
+            nr, nc = g.dim(sz), g.dim(sz * 2)
         if g.rng.random() < 0.7:
             ra, ka = g.rank_profile_rows(nr, nc)
         else:
@@ -447,11 +513,14 @@ _full = lambda g: g.rng.getrandbits(1)
 _ech("echelonize_naive", lambda g: (lambda f: ("call echelonize_naive A %d" % f, dict(full=f)))(_full(g)))
 _ech("gauss_delayed", lambda g: (lambda f: ("call gauss_delayed A 0 %d" % f, dict(full=f)))(_full(g)))
 _ech("echelonize_m4ri", lambda g: (lambda f, k: ("call echelonize_m4ri A %d %d" % (f, k), dict(full=f, k=k)))(
-    _full(g), g.rng.choice([0, 0, 1, 2, 3, 4, 5, 6, 7, 8, 9, 10])))
+    _full(g), g.rng.choice([0, 0, 1, 2, 3, 4, 5, 6, 7, 8, 9, 10])),
+     kcall=lambda g, k: (lambda f: ("call echelonize_m4ri A %d %d" % (f, k), dict(full=f, k=k)))(_full(g)))
 _ech("echelonize_pluq", lambda g: (lambda f: ("call echelonize_pluq A %d" % f, dict(full=f)))(_full(g)))
 _ech("echelonize", lambda g: (lambda f: ("call echelonize A %d" % f, dict(full=f)))(_full(g)))
 _ech("_echelonize_m4ri", lambda g: (lambda f, k, h, t: ("call _echelonize_m4ri A %d %d %d %s" % (f, k, h, t), dict(full=f, k=k, heur=h, thr=t)))(
-    _full(g), g.rng.choice([0, 1, 3, 5, 8]), g.rng.getrandbits(1), g.rng.choice(["0", "0.01", "0.15", "0.5", "1"])))
+    _full(g), g.rng.choice([0, 1, 3, 5, 8]), g.rng.getrandbits(1), g.rng.choice(["0", "0.01", "0.15", "0.5", "1"])),
+     kcall=lambda g, k: (lambda f, h, t: ("call _echelonize_m4ri A %d %d %d %s" % (f, k, h, t), dict(full=f, k=k, heur=h, thr=t)))(
+         _full(g), g.rng.getrandbits(1), g.rng.choice(["0", "0.01", "0.15", "0.5", "1"])))
 
 
 @op("top_echelonize_m4ri", "C02", ["A"])
@@ -492,6 +561,8 @@ def _ple_shape(g, sz, k=None):
         return _rec_shape(g, 2 * sz)
     c = r.random()
     cap = 2 * sz
+    if c > 1.0 - P_WIDE:
+        return r.randint(65, 100), _wide_cols(g)       # word-width classes of the process_rows kernels
     if c < 0.3:
         m, n = g.dim(sz), g.dim(cap)
     elif c < 0.5:
@@ -516,11 +587,11 @@ def _ple_content(g, m, n):
     return g.rows(m, n)
 
 
-# Finding F21: _mzd_ple_russian / _mzd_pluq_russian called directly on a window at an ODD word offset fault in
+# Finding F22: _mzd_ple_russian / _mzd_pluq_russian called directly on a window at an ODD word offset fault in
 # SSE2 builds when the window is >= 3 words wide (table rows not in the 16-byte phase of the destination, same
 # family as F9/F14/F20).  The library itself only calls them on a fresh copy (ple.c:77).  Until the entry exists in
-# known_findings.json the catalogue keeps the placement valid (even word offsets); True generates odd ones too.
-RUSSIAN_ODD_WINDOW = False
+# known_findings.json (F22, C09/C11) matches these operations; False restricts their windows to even word offsets.
+RUSSIAN_ODD_WINDOW = True
 
 
 def _ple(name, has_k):
@@ -572,6 +643,13 @@ def _trsm(name, upper, left):
     def b(g, W, sz):
         n = _tri_dim(g, sz)
         w = g.rng.choice([g.dim(sz), g.dim(sz), g.rng.choice([d for d in (1, 63, 64, 65, 127, 128, 129, 130) if d <= max(sz, 1)])])
+        if TRI_BIG is None and g.rng.random() < P_WIDE:
+            # word-width classes: B of 1..9, 15, 16, 17 words with more than 64 rows (left variants: B is n x w;
+            # right variants: B is w x n, so the triangular matrix itself is that wide)
+            if left:
+                n, w = g.rng.choice([65, 66, 100, 128, 129]), _wide_cols(g)
+            else:
+                n, w = _wide_cols(g), g.rng.choice([65, 66, 100])
         garbage = g.rng.random() < 0.85
         rt = g.unit_tri_rows(n, upper, garbage=garbage)
         br, bc = (n, w) if left else (w, n)
